@@ -160,6 +160,7 @@ def _block(seed, b, i, size):
     return bytes(out[:size])
 
 
+REAL_LIMIT = 0x8000000  # the library's own MAX_BLOCKFILE_SIZE (128 MiB), the reference point for scaling
 _CUR_MAGIC = [b"\xf9\xbe\xb4\xd9"]  # magic of the scenario being executed (for record-like block contents)
 
 
@@ -223,6 +224,12 @@ class Exec:
                     fs.restart()
                     p2p = p2p_module(reload=True)
                 p2p.MAX_BLOCKFILE_SIZE = sc["limit"]
+                # every other size-like tuning constant of the module is scaled by the same factor
+                # (sync intervals, chunk sizes, ... would otherwise never be reached at this scale)
+                for _name in sorted(vars(p2p)):
+                    _val = getattr(p2p, _name)
+                    if _name.isupper() and type(_val) is int and _val >= 1 << 16 and _name not in ("MAX_BLOCKFILE_SIZE", "MAX_SIZE", "MSG_WITNESS_FLAG", "MSG_WITNESS_TX", "MSG_WITNESS_BLOCK"):
+                        setattr(p2p, _name, max(1, _val * sc["limit"] // REAL_LIMIT))
                 p2p.set_magic_start_bytes(sc["network"])
                 blocks = [_block(sc["seed"], b, i, s) for i, s in enumerate(batch["sizes"])]
                 S_new = self.S + BF.stream(self.magic, blocks)
